@@ -12,8 +12,8 @@ CHECKS = {
          "Lean theorems (any linearly ordered commutative ring): rank_chop returns a rank in [1,len], the discarded energy never exceeds eps² (exact ties included), "
          "it is the least admissible rank, rmax caps, and the per-bond allowances (d-1)·(eps²/(d-1)) sum to eps²; a `decide`d counterexample shows the pre-fix strict comparison broke the bound. "
          "Tie to code: rank_chop compared exactly with the model on integer spectra, and every rank decision taken inside TT(...) is recorded and replayed through the model in exact rationals. "
-         "The Frobenius bound of the whole sweep additionally needs the SVD contract (orthonormal factors), which is assumed and monitored, and is checked by the property's oracle on every constructed object.",
-         TB + "SVD contract (tn.linalg.svd) assumed and monitored per call; orthogonality of successive truncation errors not formalised; float roundoff outside the model", "§5 C01"),
+         "The Frobenius bound of the whole sweep is the abstract theorem ttsvd_sweep_bound (any real/complex inner-product space: if each step is the orthogonal projection of the current partial approximation onto a subspace of the previous one and discards tailE s (rankChop s (ep·‖x_k‖)), and (d-1)·ep² <= eps², then ‖A - Â‖ <= eps·‖A‖); that the code's truncated SVD steps ARE such projections is the SVD contract (orthonormal factors), assumed, monitored per call, and the bound itself is checked by the property's oracle on every constructed object.",
+         TB + "SVD contract (tn.linalg.svd) assumed and monitored per call; the identification of the code's sweep with the nested-projection scheme of ttsvd_sweep_bound is by that contract, not by a core-level model of the sweep; float roundoff outside the model", "§5 C01"),
  "C03": ("proof",
          "Lean theorems for every order / mode / rank profile / core value over any commutative ring: +, -, * (incl. torch-style broadcasting of the right operand), unary minus, scalar +,-,*,/ from either side, Kronecker product, and the factories (ones, zeros, eye, rank-1, meshgrid) equal the dense expression entry for entry; ranks add / multiply by definition of the modelled cores. "
          "Tie: exact core-by-core comparison of the model with the real code on structured integer cases + independent dense oracle, dtype and rank-structure checks on every case.",
